@@ -126,6 +126,48 @@ def tripleStatement (o : TripleObs) : Bool :=
     && (!(eab && ebc) || eac)
   | _, _, _, _, _, _ => false
 
+/-! ### sorting and min/max of several values -/
+
+/-- insertion sort with the model's `Cmp` (`none` = a comparison panics) -/
+def insertBy (x : Obj) : List Obj → Option (List Obj)
+  | [] => some [x]
+  | y :: ys =>
+    match cmp x y with
+    | .ok c => if c < 0 then some (x :: y :: ys) else (insertBy x ys).map (y :: ·)
+    | .panic _ => none
+
+def modelSort (vs : List Obj) : Option (List Obj) :=
+  vs.foldl (fun acc v => acc.bind (insertBy v)) (some [])
+
+def removeFirst (w : String) : List String → Option (List String)
+  | [] => none
+  | x :: xs => if x == w then some xs else (removeFirst w xs).map (x :: ·)
+
+/-- same multiset of rendered values -/
+def isPermutation (a b : List Obj) : Bool :=
+  a.length == b.length &&
+  ((a.map Value.render).foldl (fun (acc : Option (List String)) w => acc.bind (removeFirst w)) (some (b.map Value.render))).isSome
+
+def sortedBy : List Obj → Bool
+  | x :: y :: rest => (match cmp x y with | .ok c => decide (c ≤ 0) | .panic _ => false) && sortedBy (y :: rest)
+  | _ => true
+
+/-- C12 on one sort: the result holds exactly the given values and every element is `<=` its successor
+(with transitivity: the whole list is in order) -/
+def sortStatement (input result : List Obj) : Bool := isPermutation input result && sortedBy result
+
+/-- C12 on one call of min / max with several arguments: the result is one of the arguments and no argument is
+smaller / larger than it -/
+def minMaxStatement (vs : List Obj) (mn mx : String) : Bool :=
+  let ws := vs.map Value.render
+  ws.contains mn && ws.contains mx
+  && (match vs.find? (fun v => Value.render v == mn) with
+      | some m => vs.all fun v => match cmp m v with | .ok c => decide (c ≤ 0) | .panic _ => false
+      | none => false)
+  && (match vs.find? (fun v => Value.render v == mx) with
+      | some m => vs.all fun v => match cmp m v with | .ok c => decide (0 ≤ c) | .panic _ => false
+      | none => false)
+
 /-! ### parsing -/
 
 def parsePairObs (s : String) : Option PairObs :=
@@ -198,6 +240,40 @@ def runCase (inp obs : String) : CaseResult :=
         stmtModel := !data || tripleStatement mo, stmtImpl := !data || tripleStatement io,
         tags := ["T:" ++ cStr mo.cab ++ "," ++ cStr mo.cbc], nontrivial := data }
     | _, _, _, _ => CaseResult.badLine
+  | "O" :: ws =>
+    match ws.mapM Value.ofString with
+    | none => CaseResult.badLine
+    | some vs =>
+      let data := vs.all isData
+      let ms := modelSort vs
+      let mstr := match ms with | some l => "|".intercalate (l.map Value.render) | none => "P"
+      let io : Option (List Obj) := if obs = "P" then none else (splitOn obs '|').mapM Value.ofString
+      -- sort.Sort is not stable: the model's order and the implementation's may differ among equivalent values
+      let agree := match ms, io with
+        | some l, some l' => obs != "P" && l.length == l'.length && (l.zip l').all (fun (x, y) => cmp x y == .ok 0)
+        | none, none => obs == "P"
+        | _, _ => false
+      { model := mstr, agree := agree,
+        stmtModel := !data || (match ms with | some l => sortStatement vs l | none => false),
+        stmtImpl := !data || (match io with | some l => obs != "P" && sortStatement vs l | none => false),
+        tags := ["sort", if (modelSort vs).isSome then s!"sort-len{if vs.length ≤ 16 then "≤16" else ">16"}" else "sort-panic"],
+        nontrivial := data }
+  | "N" :: ws =>
+    match ws.mapM Value.ofString with
+    | none => CaseResult.badLine
+    | some vs =>
+      if obs = "mn=-;mx=-" then
+        { model := obs, agree := true, stmtModel := true, stmtImpl := true, tags := ["minmax-nosource"], nontrivial := false } else
+      let data := vs.all isData
+      let lastIsArr := match vs.getLast? with | some (.arr _) => true | _ => false
+      let mo := s!"mn={objStr (minCall vs)};mx={objStr (maxCall vs)}"
+      let (mn, mx) := match splitOn obs ';' with
+        | [a, b] => ((a.drop 3).toString, (b.drop 3).toString)
+        | _ => ("?", "?")
+      { model := mo, agree := mo == obs,
+        stmtModel := !data || lastIsArr || minMaxStatement vs (objStr (minCall vs)) (objStr (maxCall vs)),
+        stmtImpl := !data || lastIsArr || minMaxStatement vs mn mx,
+        tags := ["minmax-" ++ toString vs.length], nontrivial := data && !lastIsArr }
   | _ => CaseResult.badLine
 
 end Grol.CmpSuite
